@@ -1441,8 +1441,17 @@ fn with_parens_liberal(expr: &Expression) -> Markup {
 fn pretty_print_binop(op: &BinaryOperator, lhs: &Expression, rhs: &Expression) -> Markup {
     match op {
         BinaryOperator::ConvertTo => {
-            // never needs parens, it has the lowest precedence:
-            lhs.pretty_print() + op.pretty_print() + rhs.pretty_print()
+            // it has the lowest precedence of all binary operators: only a conditional binds
+            // weaker and needs parens
+            let add_parens_if_needed = |expr: &Expression| {
+                if matches!(expr, Expression::Condition { .. }) {
+                    with_parens(expr)
+                } else {
+                    expr.pretty_print()
+                }
+            };
+
+            add_parens_if_needed(lhs) + op.pretty_print() + add_parens_if_needed(rhs)
         }
         BinaryOperator::Mul => match (lhs, rhs) {
             (
@@ -1655,7 +1664,7 @@ impl PrettyPrint for Expression<'_> {
                     }
                 }
 
-                expr.pretty_print()
+                with_parens(expr)
                     + m::operator("(")
                     + itertools::Itertools::intersperse(
                         args.iter().map(|e: &Expression| e.pretty_print()),
@@ -1713,7 +1722,7 @@ impl PrettyPrint for Expression<'_> {
             AccessField {
                 expr, field_name, ..
             } => {
-                expr.pretty_print()
+                with_parens(expr)
                     + m::operator(".")
                     + m::identifier(field_name.to_compact_string())
             }
